@@ -919,7 +919,52 @@ class ProgGen:
             self.items += cand
             self.state = st
             actions += 1
+        if r.random() < 0.15:
+            self.items += self.error_tail()
         return self.items
+
+    def error_tail(self):
+        """a last statement that must stop the program with a definite error: index >= length
+        (Index out of bounds), negative index (Index out of bounds), fractional index or an index
+        chain through a non-array (Invalid index), push/pop/reverse on a non-array element (Type
+        mismatch) -- at a random depth; nothing after it may be printed"""
+        r = self.r
+        arrs = self.arrays()
+        if not arrs:
+            return []
+        a = r.choice(arrs)
+        va = self.state[a]
+        ap = r.choice(self.array_paths(va))
+        sub = va
+        for i in ap:
+            sub = sub[i]
+        scal = [p for p in self.elem_paths(va) if not isinstance(self.at(va, p), list) and len(p) < self.MAXPATH]
+        k = r.random()
+        self.note("error_tail")
+        if k < 0.3:
+            st = ("setidx", (a, self.idx_exprs(ap) + [N(len(sub) + r.choice([0, 0, 1, 5]))]), self.scalar())
+        elif k < 0.4:
+            st = ("push", (a, self.idx_exprs(ap) + [N(len(sub))]), self.scalar())
+        elif k < 0.5:
+            st = ("setidx", (a, self.idx_exprs(ap) + [("bin", "minus", N(0), N(1))]), self.scalar())
+        elif k < 0.6:
+            st = ("setidx", (a, self.idx_exprs(ap) + [("num", "0.5")]), self.scalar())
+        elif scal and k < 0.8:
+            p = r.choice(scal)
+            st = ("setidx", (a, self.idx_exprs(p) + [N(0)]), self.scalar())
+        elif scal:
+            p = r.choice(scal)
+            st = r.choice([("push", (a, self.idx_exprs(p)), self.scalar()), ("rev", (a, self.idx_exprs(p))),
+                           ("shout", ("pop", (a, self.idx_exprs(p))))])
+        else:
+            st = ("shout", self.chain_expr(a, ap + (len(sub),)))
+        return [st] + self.shout_all()
+
+    @staticmethod
+    def at(v, p):
+        for i in p:
+            v = v[i]
+        return v
 
 
 def gen_structured(rng, size):
@@ -933,7 +978,10 @@ def gen_structured(rng, size):
 
 class AliasGen(langgen.Gen):
     """langgen.Gen plus probes.  A probe prints a witness value, mutates another name that was
-    made from / stored with the same array, and prints the witness again, between markers."""
+    made from / stored with the same array, and prints the witness again, between markers.
+    Witnesses are printed as `to_string(x)`: a text snapshot taken at that moment (the harness
+    reads Runtime.output after the run, so a printed *array* that shared storage with a variable
+    would change retroactively and the two prints would compare equal again)."""
 
     def __init__(self, rng, opts):
         super().__init__(rng, opts)
@@ -977,8 +1025,8 @@ class AliasGen(langgen.Gen):
             else:
                 mut = "%s.reverse()" % a.name
             self.stat("probe_mutate_source" + ("_nested" if nested and "[" in mut else ""))
-            return ["%smake %s get %s" % (pad, c, a.name), "%sshout(%s)" % (pad, op), "%sshout(%s)" % (pad, c),
-                    pad + mut, "%sshout(%s)" % (pad, c), "%sshout(%s)" % (pad, cl), "%sshout(%s)" % (pad, a.name)]
+            return ["%smake %s get %s" % (pad, c, a.name), "%sshout(%s)" % (pad, op), "%sshout(to_string(%s))" % (pad, c),
+                    pad + mut, "%sshout(to_string(%s))" % (pad, c), "%sshout(%s)" % (pad, cl), "%sshout(%s)" % (pad, a.name)]
         if m < 0.8:
             # mutate the copy any way, witness = the source
             mk = r.random()
@@ -999,8 +1047,8 @@ class AliasGen(langgen.Gen):
             else:
                 mut = "%s.push(%s)" % (c, a.name)
             self.stat("probe_mutate_copy")
-            return ["%smake %s get %s" % (pad, c, a.name), "%sshout(%s)" % (pad, op), "%sshout(%s)" % (pad, a.name),
-                    pad + mut, "%sshout(%s)" % (pad, a.name), "%sshout(%s)" % (pad, cl), "%sshout(%s)" % (pad, c)]
+            return ["%smake %s get %s" % (pad, c, a.name), "%sshout(%s)" % (pad, op), "%sshout(to_string(%s))" % (pad, a.name),
+                    pad + mut, "%sshout(to_string(%s))" % (pad, a.name), "%sshout(%s)" % (pad, cl), "%sshout(%s)" % (pad, c)]
         # stored twice in another array: mutate one element, witnesses = the other element and the source
         muts = ["%s[0].push(%s)" % (c, self.lit_for(langgen.NUM)), "%s[0].reverse()" % c, "%s[0].pop()" % c,
                 "%s[0] get [%s]" % (c, self.lit_for(langgen.STR))]
@@ -1010,8 +1058,8 @@ class AliasGen(langgen.Gen):
         mut = r.choice(muts)
         self.stat("probe_stored")
         return ["%smake %s get [%s, %s]" % (pad, c, a.name, a.name), "%sshout(%s)" % (pad, op),
-                "%sshout([%s[1], %s])" % (pad, c, a.name), pad + mut,
-                "%sshout([%s[1], %s])" % (pad, c, a.name), "%sshout(%s)" % (pad, cl), "%sshout(%s)" % (pad, c)]
+                "%sshout(to_string([%s[1], %s]))" % (pad, c, a.name), pad + mut,
+                "%sshout(to_string([%s[1], %s]))" % (pad, c, a.name), "%sshout(%s)" % (pad, cl), "%sshout(%s)" % (pad, c)]
 
     def stmt(self, ind):
         if self.r.random() < 0.22:
@@ -1140,8 +1188,8 @@ def shrink_structured(env, items, cfgs, release):
 def correspond(env, searching=False, model=True):
     rng = env.rng
     thorough = env.tier == "thorough"
-    n_struct = 7000 if thorough else 260
-    n_generic = 4000 if thorough else 160
+    n_struct = 8000 if thorough else 400
+    n_generic = 5000 if thorough else 240
     if searching:
         n_struct, n_generic = n_struct * 2, n_generic * 2
     res = {"evaluations": 0, "distinct_nontrivial": 0,
